@@ -1,5 +1,6 @@
 import Driver.Json
 import Driver.Framing
+import Driver.Mux
 open Lean Drv
 
 def dispatch (cmd : String) (j : Json) : Except String Json :=
@@ -8,6 +9,11 @@ def dispatch (cmd : String) (j : Json) : Except String Json :=
   | "line_frame" => cmdLineFrame j
   | "lp_unframe" => cmdLpUnframe j
   | "lp_frame" => cmdLpFrame j
+  | "mux" => cmdMux j
+  | "muxtrace" => cmdMuxTrace j
+  | "plain" => cmdPlain j
+  | "local" => cmdLocal j
+  | "wf" => cmdWf j
   | _ => throw "bad-case"
 
 def handleLine (line : String) : String :=
